@@ -50,12 +50,25 @@ class Ctx:
                                   "impl": [decode_line(l)[:200] for l in impl.get(cid, [])[:40]]})
 
     # ---- sequential differential stream
-    def seq(self, stream, cases, relevant=None, triggers=(), monitor=None):
+    def seq(self, stream, cases, relevant=None, triggers=(), monitor=None, always_monitor=False):
         tag = "%s-%s" % (self.pid, stream)
         bad, impl, model = seqdiff(tag, cases, relevant)
         self.note_cases(stream, cases, impl, triggers)
         self.stats["traces"] += len(cases) - len(bad)
         out = []
+        if always_monitor and monitor:
+            # streams whose outputs legitimately depend on the schedule (calls started concurrently) are
+            # compared with the model only for completion; the property itself is then read off the
+            # implementation's own answers on every case, not only after a disagreement.
+            for cid, ops in cases:
+                why = monitor(ops, impl.get(cid, []))
+                if why:
+                    payload = {"engine": "seq", "stream": stream, "relevant": sorted(relevant) if relevant else None,
+                               "case": ops, "impl": impl.get(cid), "model": model.get(cid),
+                               "readable": [decode_line(o)[:300] for o in ops], "failing_input_found": True,
+                               "monitor": why, "signature": "monitor:" + why.split(":")[0],
+                               "broken": "monitor of stream '%s' on the implementation's own answers" % stream}
+                    return [("violation", "%s: %s" % (stream, why), payload)]
         if not bad:
             return out
         # 1. shrink the first disagreement
@@ -771,3 +784,103 @@ reg("C12", [eng_delete_release, eng_wait_random(M.mon_release, {"DS"})],
                + SEQ_NOTE,
     level_note="PARTIAL: 'for all interleavings and all outcomes of select!' is covered by seeds 0..N on the real "
                "server, not by a theorem over a concurrent model.")
+
+
+# ================================================================= C16 abandoned requests
+
+def eng_abandon(ctx):
+    specs = gen.abandon_cases() if ctx.thorough else gen.abandon_cases(ks=(1, 2, 4), ys=(0, 2), fills=(0, 20))
+    tag = "C16-abandon"
+    d = workdir(tag)
+    impl_cases = [(cid, ops) for cid, ops, idx, eq in specs]
+    a_cases = [(cid + "#A", ops[:idx] + [eq] + ops[idx + 1:]) for cid, ops, idx, eq in specs]
+    b_cases = [(cid + "#B", ops[:idx] + ["Q"] + ops[idx + 1:]) for cid, ops, idx, eq in specs]
+    cp, mp = os.path.join(d, "cases.txt"), os.path.join(d, "model-cases.txt")
+    write_cases(cp, impl_cases)
+    write_cases(mp, a_cases + b_cases)
+    io, mo = os.path.join(d, "impl.out"), os.path.join(d, "model.out")
+    run_impl_seq(cp, io)
+    run_model_seq(mp, mo)
+    impl, model = parse_results(io), parse_results(mo)
+    st = ctx.stats
+    st["evaluations"] += len(specs)
+    s = st["streams"].setdefault("abandon", {"cases": 0, "dropped": 0, "completed_anyway": 0, "as_if_never": 0,
+                                              "as_if_completed": 0, "by_kind": {}})
+    s["cases"] += len(specs)
+    out = []
+    for cid, ops, idx, eq in specs:
+        res = impl.get(cid, ["<no result>"])
+        xc = res[idx] if idx < len(res) else "?"
+        ma, mb = model.get(cid + "#A", []), model.get(cid + "#B", [])
+
+        def same(m):
+            if len(m) != len(res):
+                return False
+            return all(norm_for(ops[i], res[i]) == norm_for(ops[i], m[i]) for i in range(len(res)) if i != idx)
+        okA, okB = same(ma), same(mb)
+        kind = ops[idx].split(" ")[1]
+        s["by_kind"][kind] = s["by_kind"].get(kind, 0) + 1
+        if xc == "XC dropped":
+            s["dropped"] += 1
+            st["distinct"].add(hashlib.sha1("\n".join(ops).encode()).hexdigest())
+        else:
+            s["completed_anyway"] += 1
+        if okA:
+            s["as_if_completed"] += 1
+        elif okB:
+            s["as_if_never"] += 1
+        good = okA or (okB and xc == "XC dropped")
+        if good:
+            st["traces"] += 1
+            continue
+        if len(out) >= 3:
+            continue
+        why = M.mon_abandon(ops, res)
+        first = next((i for i in range(min(len(res), len(ma))) if i != idx and
+                      norm_for(ops[i], res[i]) != norm_for(ops[i], ma[i]) and
+                      (i >= len(mb) or norm_for(ops[i], res[i]) != norm_for(ops[i], mb[i]))), None)
+        payload = {"engine": "abandon", "stream": "abandon", "case": ops, "xc_index": idx, "equivalent": eq,
+                   "impl": res, "model_if_completed": ma, "model_if_never_received": mb,
+                   "readable": [decode_line(o)[:200] for o in ops],
+                   "first_line_matching_neither": first,
+                   "readable_impl": decode_line(res[first])[:300] if first is not None and first < len(res) else None,
+                   "broken": "correspondence stream 'abandon': the state after an abandoned request equals neither "
+                             "api_step (completed) nor the unchanged state (never received) of Deltio.Model.Server"}
+        if why:
+            payload.update({"failing_input_found": True, "monitor": why, "signature": "monitor:" + why.split(":")[0]})
+            out.append(("violation", "abandon: " + why, payload))
+        else:
+            payload.update({"failing_input_found": False, "signature": "correspondence:abandon"})
+            out.append(("correspondence", "abandon: case %s matches neither outcome" % cid, payload))
+    if specs:
+        cid, ops, idx, eq = specs[len(specs) // 2]
+        st["samples"].append({"stream": "abandon", "case": cid, "ops": [decode_line(o)[:160] for o in ops[:12]],
+                              "impl": [decode_line(l)[:160] for l in impl.get(cid, [])[:12]]})
+    return out
+
+
+def eng_concurrent_publish(ctx):
+    cases = gen.concurrent_publish_cases(range(ctx.n(150, 3000)))
+    return ctx.seq("concurrent-publish", cases, relevant={"JOIN", "PUB", "SO", "CS", "CT"}, triggers={"JOIN", "PULL", "SR"},
+                   monitor=M.mon_order_conc, always_monitor=True)
+
+
+reg("C08", [eng_data_random(M.mon_order, {"PUB"}, streams=True, tag="data-stream-random"),
+            eng_data_enum(M.mon_order, {"PUB"}), eng_concurrent_publish,
+            eng_wait_random(M.mon_order, {"PUB"})],
+    rule="random and exhaustive sequential scripts (ids, first deliveries, redeliveries out of order); "
+         "concurrent-publish: 2-6 Publish calls to one topic started without letting the runtime settle (seeded), two "
+         "subscriptions, one stream and pulls of several sizes, a nack in between - ids and first-delivery order are "
+         "read off the implementation's answers on every case. non-trivial = a Publish answered with ids",
+    monitor=M.mon_order, title="Publish order is delivery order; message IDs are issued in order", design_ref="7/C08",
+    technique="Coq: per-batch id arithmetic; first deliveries form a prefix of the posted sequence, by induction over all "
+              "turn sequences with a ghost set of delivered ids; differential correspondence + order monitor under "
+              "concurrent publishers",
+    level_text="Proved: one id per message, consecutive and strictly increasing within a batch and across batches of one "
+               "topic (counter < 2^32); for every subscription and every history of turns the sequence of first deliveries "
+               "is exactly a prefix of the posted sequence (publish order, batches contiguous, nothing skipped), with "
+               "strictly increasing ack ids; a Publish appends its batch to each attached subscription in one topic-actor "
+               "step. " + SEQ_NOTE,
+    level_note="That posts of successive publishes enter each mailbox in publish order under concurrency (topic actor awaits "
+               "all posts; FIFO mailboxes) is part of the concurrent actor model, exercised on the real server by the "
+               "concurrent-publish stream.")
